@@ -1457,6 +1457,36 @@ def variants(tier: str) -> List[Dict[str, Any]]:
         add(f"tour:{facet}(Lifecycle.tla, {st['edges']} edges, {len(seen)} states)", tcfg, len(eps), 0)
         V[-1].update(scripts=scripts, record_at=record_at, hooks=hooks)
     add("uc7_config", scenarios.shipped("uc7_config.yaml"), 2, 30 if quick else 128)
+    # an episode schedule whose episodes give the defender differently sized views (a curriculum): every observation
+    # must be in the space the environment declares in THAT episode
+    import shutil as _shutil
+
+    from . import common as _common
+
+    for flat in (False, True):
+        root = _common.tmpdir("verif_obs_sched_")
+        src = scenarios.TEST_CFG / "scenario_with_placeholders"
+        for f in src.iterdir():
+            _shutil.copy(f, root / f.name)
+        base = (root / "scenario.yaml").read_text()
+        if "              num_services: 1\n" in base and "              num_nics: 1\n" in base and "flatten_obs: false" in base:
+            base = base.replace("              num_services: 1\n", "              num_services: *view_num_services\n", 1)
+            base = base.replace("              num_nics: 1\n", "              num_nics: *view_num_nics\n", 1)
+            base = base.replace("save_agent_actions: true", "save_agent_actions: false")
+            if flat:
+                base = base.replace("flatten_obs: false", "flatten_obs: true")
+            (root / "scenario.yaml").write_text(base)
+            for name, (ns, nn) in {"view_small.yaml": (1, 1), "view_large.yaml": (2, 2)}.items():
+                (root / name).write_text(f"view:\n  num_services: &view_num_services {ns}\n  num_nics: &view_num_nics {nn}\n")
+            import yaml as _yaml
+
+            sched = {0: ["greens_0.yaml", "reds_0.yaml", "view_small.yaml"], 1: ["greens_0.yaml", "reds_0.yaml", "view_large.yaml"],
+                     2: ["greens_1.yaml", "reds_1.yaml", "view_small.yaml"]}
+            (root / "schedule.yaml").write_text(_yaml.safe_dump({"base_scenario": "scenario.yaml", "schedule": sched}))
+            add(f"scenario_with_placeholders(views of different size per episode, flatten={flat})", str(root), 4, 8 if quick else 30,
+                constant=False, note="episode-scheduled directory with per-episode observation options")
+        else:
+            raise RuntimeError("harness: tests/assets/configs/scenario_with_placeholders/scenario.yaml changed shape")
     add("scenario_with_placeholders(episode schedule)", str(scenarios.PKG / "scenario_with_placeholders"), 5, 20 if quick else 60,
         constant=False, note="episode-scheduled directory: not a constant scenario; digests logged, constancy not demanded")
     if not quick:
@@ -1508,6 +1538,9 @@ def run_variant(prop: str, v: Dict[str, Any], seed: int, stats: Dict[str, Any]) 
         if prop == "C02":
             try:
                 nested = bool(om.space.contains(om.current_observation))
+                if not agent.flatten_obs:
+                    # the space the ENVIRONMENT declares at this moment, and the observation it returned
+                    nested = nested and bool(env.observation_space.contains(obs))
             except Exception:  # noqa
                 nested = False
             flat_ok = True
